@@ -35,3 +35,22 @@ Print Assumptions C02_no_package_state_written.
 Theorem C02_type_codes : type_codes_b = true.
 Proof. vm_compute. reflexivity. Qed.
 Print Assumptions C02_type_codes.
+
+(* the fixed-length primitives: item type code and value length per kind, as the model has them, are the ones every read* /
+   write* function of decode_core.go / encode_core.go is written with (regenerated from the source on every run), and the
+   model's encoder writes exactly that header *)
+Require Import Generated Instance.
+Theorem C02_primitive_layout_matches_code : prim_layout_b = true.
+Proof. vm_compute. reflexivity. Qed.
+Print Assumptions C02_primitive_layout_matches_code.
+
+Theorem C02_fixed_primitive_header : forall tag k v b l,
+  enc_prim tag k v = Some b -> fixed_len k = Some l ->
+  firstn 8 b = header tag (type_code k) l /\ blen b = 16%N.
+Proof.
+  intros tag k v b l H Hl.
+  destruct k; cbn in Hl; try discriminate; injection Hl as <-;
+    destruct v; cbn [enc_prim] in H; try discriminate; injection H as <-;
+    (split; [reflexivity|]); unfold blen; rewrite ?app_length; cbn; reflexivity.
+Qed.
+Print Assumptions C02_fixed_primitive_header.
